@@ -14,7 +14,7 @@
 import random, json, itertools
 from vlib import *
 import progs as P, mach, ktrace
-from progs import S, Q, STR
+from progs import S, Q, STR, SRC
 
 KERNEL_CFG = """SPECIFICATION Spec
 CONSTANTS FIDS = {"f"}
@@ -43,6 +43,9 @@ LEAVES = [
     S("unbound-x"),
     7,
     [S("probe"), Q(S("leaf"))],
+    # a failure that travels through a nested load before it reaches the handlers: a real host panic keeps its carve-out
+    [S("load-string"), SRC([[S("probe"), Q(S("in-load"))], [S("boom")]])],
+    [S("load-string"), SRC([[S("error"), Q(S("a")), 5]])],
     # error data that would mean something if it were evaluated again: a call form and a symbol taken out of a quoted list
     [S("error"), Q(S("a")), [S("car"), Q([[S("probe"), Q(S("data-evaluated"))]])], [S("car"), Q([S("unbound-data")])]],
 ]
